@@ -571,10 +571,16 @@ def c04(tier):
 
 
 def c17(tier):
-    ck = Check("C17", tier, "exploration",
+    ck = Check("C17", tier, "other",
+               "Deductive part (pyvc.wp on the real source, all inputs): combinations_mismatched_weights returns a non-negative number that is 0 iff every "
+               "combination occurring in the window [start, end) occurs exactly (or_less: at most) combination_weight * weight times there — the fact "
+               "sample_mismatch_crossing relies on when it compares the result with the acceptable error (the trial key is an uninterpreted function of the "
+               "trial, dict iteration is some repetition-free enumeration of the keys). Bounded part: "
                "sample_mismatch_experiment(block, s) == {} iff s is valid: for every design of D covered by the reference reading, every candidate "
                "sequence of the design (whole space when it has at most the stated number of sequences) is given to the real checker; definitely "
                "valid sequences must be accepted, definitely invalid ones rejected, ambiguous ones are not judged.")
+    run_wp(ck, ["combinations_mismatched_weights"], budget_ms(tier), prefix="C17.wp.")
+    ck.under_contract("sweetpea._internal.check_mismatch:combinations_mismatched_weights", "sweetpea._internal.main:sample_mismatch_experiment")
     ds = SC.design_space(tier, seed())
     res = _mismatch_run(tier, ds)
     byname = {d["name"]: d for d in ds}
